@@ -137,6 +137,15 @@ def run(ctx):
                      lambda: op.is_applicable(s0), op.ground][ctx.s("sched").draw(3)]
             if C.interrupted(ctx, first):
                 ctx.probes["first_use_interrupted"] += 1
+        if k and ctx.s("sched").draw(5) == 0:
+            # an observer reads the grounded operator before it is used (every public property and printed form of the
+            # operator, its grounded effects and their literals): reading must change nothing
+            try:
+                op.ground()
+            except Exception:
+                pass
+            C.inspect_object(op, depth=4)
+            ctx.probes["operator_inspected_before_use"] += 1
         rec = []
         got = apply(ctx, op, s0, flags, site, rec)
         orders.add(tuple(rec))
